@@ -34,6 +34,12 @@ STRENGTH = {
  "C17-d": "nested ranging over one stored Preorder value",
  "C19-d": "a second set of poslang expression objects shared by all node types with the same expression text",
  "C20-d": "texts of up to 400 (thorough 3 000) lines with every position resolved",
+ "C07-h": "C07 atoms that bring their own brackets or keywords (scalar / ARRAY / EXISTS sub-query, CASE, CAST, array literal, tuple): a parenthesis written around them is still a ParenExpr",
+ "C11-h": "a `;` inserted in front of every token of every corpus file and systematic sentence (C11)",
+ "C12-h": "literal matrix: backslash runs (0-5) x quote runs (0-4) for every prefix and quote form; the literal matrix also runs through C12, alone and between separators",
+ "C13-h": "every code point as the first thing in the input (C13/C14)",
+ "C19-h": "C19 rebuilds each parsed tree with sibling slots sharing one node instance (hand-built DAG) and compares the traversal with the field model",
+ "C20-h": "C20 asks one shared File object for all pairs of a text, forwards, backwards and jumping, and compares with a fresh File per call",
  "C01-g": "operand matrix (every primary-expression form x operator context x field-name kind after the dot) in C01, C02, C05, C06",
  "C02-g": "qualified special forms with the form's own name as first / middle path component (`count.x(*)`, `x.CAST.y(...)`)",
  "C05-g": "every word of every corpus file and systematic sentence back-quoted in place (tagged sub-workload `@qpkw`; a known finding for an untagged signature also covers the tagged one)",
@@ -61,8 +67,8 @@ STRENGTH = {
 out = []
 out.append("## 11. Seeded changes and kill matrix\n")
 out.append("Every change below was written by a fresh sub-agent that saw only the text of one property and a scratch git\n"
-           "worktree of /repo (nothing from /verif), in seven rounds: (a) free choice, (b) a prescribed area of the code per\n"
-           "property, (c)-(g) \"make it survive generic property-based testing\" with an increasingly detailed description of what such testing does. Each was verified with\n"
+           "worktree of /repo (nothing from /verif), in eight rounds: (a) free choice, (b) a prescribed area of the code per\n"
+           "property, (c)-(h) \"make it survive generic property-based testing\" with an increasingly detailed description of what such testing does. Each was verified with\n"
            "`tools/mutant_verify.sh` (compiles, unedited suite passes, demonstration fails with the change and passes without)\n"
            "and is kept as `seeded/<name>/{patch.diff, mutant_demo_test.go, MUTANT.md, meta.json}`. \"caught by\" lists the\n"
            "checks whose **quick** command exits 1 on a scratch copy of /repo with the patch applied (`tools/killmatrix.sh`);\n"
